@@ -246,3 +246,30 @@ func AddPlant(r *prng.R, p *Prog, kind string, cfg Cfg) {
 		p.Render()
 	}
 }
+
+// AddWide prepends n statements that each add a distinct constant (or, in a block-free
+// program, a local), so that constant indices, slot numbers and POPN counts of everything
+// that follows need multi-byte operands. Call it before AddPlant; it does not re-render.
+func AddWide(r *prng.R, p *Prog, n int, locals bool) {
+	var toks []Tok
+	for i := 0; i < n; i++ {
+		if locals {
+			toks = append(toks, Tok{Text: "var", Kind: KKw, Stmt: i}, Tok{Text: fmt.Sprintf("w%d", i), Kind: KIdent, Stmt: i},
+				Tok{Text: "=", Kind: KPunct, Stmt: i}, Tok{Text: fmt.Sprint(1000 + i), Kind: KInt, Stmt: i})
+		} else {
+			toks = append(toks, Tok{Text: "eval", Kind: KKw, Stmt: i}, Tok{Text: fmt.Sprint(1000 + i), Kind: KInt, Stmt: i})
+		}
+	}
+	for i := range p.Toks {
+		p.Toks[i].Stmt += n
+	}
+	for i := range p.Plants {
+		if p.Plants[i].Tok >= 0 {
+			p.Plants[i].Tok += len(toks)
+		}
+		p.Plants[i].StmtFirst += len(toks)
+		p.Plants[i].StmtLast += len(toks)
+	}
+	p.Toks = append(toks, p.Toks...)
+	p.NStmts += n
+}
